@@ -4,14 +4,16 @@ use crate::checks::c01::KEYS;
 use crate::refcodec;
 use crate::checks::{load_case, replay_exit};
 use crate::ctx::{Ctx, Tier, catch, hex, panic_site, unhex};
-use lorawan::certification::{DownlinkDUTCommand, UplinkDUTCommand, parse_downlink_dut_commands, parse_uplink_dut_commands};
+use lorawan::certification::{self as cert, DownlinkDUTCommand, UplinkDUTCommand, parse_downlink_dut_commands, parse_uplink_dut_commands};
 use lorawan::default_crypto::DefaultCrypto;
 use lorawan::keys::AES128;
 use lorawan::maccommands::{
     DownlinkMacCommand, MacCommandSet, MacCommands, ParseError, SerializableMacCommand, UplinkMacCommand,
     parse_downlink_mac_commands, parse_uplink_mac_commands,
 };
-use lorawan::multicast::{DownlinkRemoteSetup, UplinkRemoteSetup, parse_downlink_multicast_commands, parse_uplink_multicast_commands};
+use lorawan::multicast::{self as mc, DownlinkRemoteSetup, UplinkRemoteSetup, parse_downlink_multicast_commands, parse_uplink_multicast_commands};
+use lorawan::maccommands as macs;
+use lorawan::types::{ChannelMask, DLSettings, DataRateRange, Frequency, Redundancy};
 use lorawan::parser::{
     DecryptedDataPayload, DecryptedJoinAcceptPayload, DevNonce, EncryptedDataPayload, EncryptedJoinAcceptPayload, JoinRequestPayload,
     PhyPayload, parse,
@@ -64,6 +66,24 @@ fn h(b: &[u8]) -> u64 {
     b.iter().fold(b.len() as u64, |a, &x| a.wrapping_mul(31).wrapping_add(x as u64))
 }
 
+/// `is_enabled` for every index up to well past the mask and at the top of the index type: a defined channel answers with its
+/// bit, anything else with an error (never an unwind; a wrong answer unwinds here and is reported as one).
+fn sweep_mask<const N: usize>(cm: &ChannelMask<N>) -> u64 {
+    let raw: &[u8] = cm.as_ref();
+    let mut a = 0u64;
+    for i in (0..N * 8 + 24).chain([255, 256, 65535, 65536, usize::MAX - 1, usize::MAX]) {
+        let r = cm.is_enabled(i);
+        if i < N * 8 {
+            let want = raw[i / 8] & (1 << (i % 8)) != 0;
+            assert!(r == Ok(want), "ChannelMask<{N}>::is_enabled({i}) = {r:?}, bit is {want}");
+            a ^= want as u64;
+        } else {
+            assert!(r.is_err(), "ChannelMask<{N}>::is_enabled({i}) = {r:?} for an index outside the mask");
+        }
+    }
+    a
+}
+
 impl Touch for DownlinkMacCommand<'_> {
     fn touch(&self) -> u64 {
         use DownlinkMacCommand::*;
@@ -75,9 +95,7 @@ impl Touch for DownlinkMacCommand<'_> {
                 a ^= p.data_rate() as u64 ^ p.tx_power() as u64 ^ h(cm.as_ref());
                 let r = p.redundancy();
                 a ^= r.channel_mask_control() as u64 ^ r.number_of_transmissions() as u64 ^ r.raw_value() as u64;
-                for i in 0..16 {
-                    a ^= cm.is_enabled(i).unwrap_or(false) as u64;
-                }
+                a ^= sweep_mask(&cm);
                 a ^= cm.statuses::<16>().iter().filter(|x| **x).count() as u64;
             }
             DutyCycleReq(p) => a ^= p.max_duty_cycle_raw() as u64 ^ p.max_duty_cycle().to_bits() as u64,
@@ -359,7 +377,11 @@ fn eval_frame(data: &[u8]) -> Vec<(String, String)> {
                 ^ j.dev_addr().value() as u64
                 ^ j.dl_settings().raw_value() as u64
                 ^ j.rx_delay() as u64
-                ^ j.c_f_list().is_some() as u64
+                ^ match j.c_f_list() {
+                    None => 0,
+                    Some(lorawan::parser::CfList::DynamicChannel(f)) => f.iter().fold(1, |x, y| x ^ y.hz() as u64),
+                    Some(lorawan::parser::CfList::FixedChannel(m)) => 2 ^ sweep_mask(&m) ^ m.statuses::<72>().iter().filter(|x| **x).count() as u64,
+                }
                 ^ h(&j.mic().0)
                 ^ h(j.as_bytes());
             acc ^= h(j.derive_nwkskey(DevNonce::from_value(7), &n).as_ref()) ^ h(j.derive_appskey(DevNonce::from_value(7), &n).as_ref());
@@ -410,9 +432,127 @@ fn touch_jr(j: &JoinRequestPayload<'_>, n: &DefaultCrypto) -> u64 {
     j.join_eui().value() ^ j.dev_eui().value() ^ j.dev_nonce().value() as u64 ^ h(&j.mic().0) ^ j.validate_mic(n) as u64 ^ h(j.as_bytes())
 }
 
+/// (e) The checked constructors of the payload types, called directly (not through the stream iterators): total on every
+/// slice; `Ok` exactly for the lengths of the framing table, the view is the specified prefix and every accessor works on it.
+fn eval_ctor(set: &str, cid: u8, data: &[u8]) -> Vec<(String, String)> {
+    fn judge<'a, P, T: Touch + SerializableMacCommand>(
+        set: &str,
+        cid: u8,
+        data: &'a [u8],
+        r: Result<P, lorawan::maccommands::Error>,
+        wrap: impl FnOnce(P) -> T,
+        want: Option<usize>,
+    ) -> Vec<(String, String)> {
+        let mut v = vec![];
+        match (r, want) {
+            (Ok(p), Some(l)) => {
+                let cmd = wrap(p);
+                if cmd.payload_bytes() != &data[..l] {
+                    v.push((format!("C03|{set}|ctor-view|cid{cid:02x}"), format!("constructor view {} is not the first {l} bytes of {}", hex(cmd.payload_bytes()), hex(data))));
+                }
+                black_box(cmd.touch());
+            }
+            (Ok(p), None) => {
+                // accessors on a view the constructor should not have handed out: they must still not unwind
+                let cmd = wrap(p);
+                v.push((format!("C03|{set}|ctor-accepts-bad-length|cid{cid:02x}"), format!("constructor accepted {} bytes: {}", data.len(), hex(data))));
+                black_box(cmd.touch());
+            }
+            (Err(_), Some(_)) => v.push((format!("C03|{set}|ctor-rejects-good-length|cid{cid:02x}"), format!("constructor refused {}", hex(data)))),
+            (Err(_), None) => {}
+        }
+        v
+    }
+    let fixed = |l: usize| if data.len() == l { Some(l) } else { None };
+    let r = catch(|| match (set, cid) {
+        ("mac-down", 0x02) => judge(set, cid, data, macs::LinkCheckAnsPayload::new(data), DownlinkMacCommand::LinkCheckAns, fixed(2)),
+        ("mac-down", 0x03) => judge(set, cid, data, macs::LinkADRReqPayload::new(data), DownlinkMacCommand::LinkADRReq, fixed(4)),
+        ("mac-down", 0x04) => judge(set, cid, data, macs::DutyCycleReqPayload::new(data), DownlinkMacCommand::DutyCycleReq, fixed(1)),
+        ("mac-down", 0x05) => judge(set, cid, data, macs::RXParamSetupReqPayload::new(data), DownlinkMacCommand::RXParamSetupReq, fixed(4)),
+        ("mac-down", 0x07) => judge(set, cid, data, macs::NewChannelReqPayload::new(data), DownlinkMacCommand::NewChannelReq, fixed(5)),
+        ("mac-down", 0x08) => judge(set, cid, data, macs::RXTimingSetupReqPayload::new(data), DownlinkMacCommand::RXTimingSetupReq, fixed(1)),
+        ("mac-down", 0x09) => judge(set, cid, data, macs::TXParamSetupReqPayload::new(data), DownlinkMacCommand::TXParamSetupReq, fixed(1)),
+        ("mac-down", 0x0a) => judge(set, cid, data, macs::DlChannelReqPayload::new(data), DownlinkMacCommand::DlChannelReq, fixed(4)),
+        ("mac-down", 0x0d) => judge(set, cid, data, macs::DeviceTimeAnsPayload::new(data), DownlinkMacCommand::DeviceTimeAns, fixed(5)),
+        ("mac-up", 0x03) => judge(set, cid, data, macs::LinkADRAnsPayload::new(data), UplinkMacCommand::LinkADRAns, fixed(1)),
+        ("mac-up", 0x05) => judge(set, cid, data, macs::RXParamSetupAnsPayload::new(data), UplinkMacCommand::RXParamSetupAns, fixed(1)),
+        ("mac-up", 0x06) => judge(set, cid, data, macs::DevStatusAnsPayload::new(data), UplinkMacCommand::DevStatusAns, fixed(2)),
+        ("mac-up", 0x07) => judge(set, cid, data, macs::NewChannelAnsPayload::new(data), UplinkMacCommand::NewChannelAns, fixed(1)),
+        ("mac-up", 0x0a) => judge(set, cid, data, macs::DlChannelAnsPayload::new(data), UplinkMacCommand::DlChannelAns, fixed(1)),
+        ("dut-down", 0x04) => judge(set, cid, data, cert::AdrBitChangeReqPayload::new(data), DownlinkDUTCommand::AdrBitChangeReq, fixed(1)),
+        ("dut-down", 0x06) => judge(set, cid, data, cert::TxPeriodicityChangeReqPayload::new(data), DownlinkDUTCommand::TxPeriodicityChangeReq, fixed(1)),
+        ("dut-down", 0x07) => judge(set, cid, data, cert::TxFramesCtrlReqPayload::new(data), DownlinkDUTCommand::TxFramesCtrlReq, if data.is_empty() { None } else { Some(data.len()) }),
+        ("dut-down", 0x08) => judge(set, cid, data, cert::EchoIncPayloadReqPayload::new(data), DownlinkDUTCommand::EchoIncPayloadReq, if data.is_empty() { None } else { Some(data.len()) }),
+        ("dut-up", 0x08) => judge(set, cid, data, cert::EchoIncPayloadAnsPayload::new(data), UplinkDUTCommand::EchoIncPayloadAns, if data.is_empty() { None } else { Some(data.len()) }),
+        ("dut-up", 0x09) => judge(set, cid, data, cert::RxAppCntAnsPayload::new(data), UplinkDUTCommand::RxAppCntAns, fixed(2)),
+        ("dut-up", 0x7f) => judge(set, cid, data, cert::DutVersionsAnsPayload::new(data), UplinkDUTCommand::DutVersionsAns, fixed(12)),
+        ("mc-down", 0x01) => judge(set, cid, data, mc::McGroupStatusReqPayload::new(data), DownlinkRemoteSetup::McGroupStatusReq, fixed(1)),
+        ("mc-down", 0x02) => judge(set, cid, data, mc::McGroupSetupReqPayload::new(data), DownlinkRemoteSetup::McGroupSetupReq, fixed(29)),
+        ("mc-down", 0x03) => judge(set, cid, data, mc::McGroupDeleteReqPayload::new(data), DownlinkRemoteSetup::McGroupDeleteReq, fixed(1)),
+        ("mc-down", 0x04) => judge(set, cid, data, mc::McClassCSessionReqPayload::new(data), DownlinkRemoteSetup::McClassCSessionReq, fixed(10)),
+        ("mc-down", 0x05) => judge(set, cid, data, mc::McClassBSessionReqPayload::new(data), DownlinkRemoteSetup::McClassBSessionReq, fixed(10)),
+        ("mc-up", 0x00) => judge(set, cid, data, mc::PackageVersionAnsPayload::new(data), UplinkRemoteSetup::PackageVersionAns, fixed(2)),
+        ("mc-up", 0x01) => {
+            let want = var_len(set, cid, data).filter(|l| *l <= data.len());
+            judge(set, cid, data, mc::McGroupStatusAnsPayload::new(data), UplinkRemoteSetup::McGroupStatusAns, want)
+        }
+        ("mc-up", 0x02) => judge(set, cid, data, mc::McGroupSetupAnsPayload::new(data), UplinkRemoteSetup::McGroupSetupAns, fixed(1)),
+        ("mc-up", 0x03) => judge(set, cid, data, mc::McGroupDeleteAnsPayload::new(data), UplinkRemoteSetup::McGroupDeleteAns, fixed(1)),
+        ("mc-up", 0x04) => judge(set, cid, data, mc::McClassCSessionAnsPayload::new(data), UplinkRemoteSetup::McClassCSessionAns, fixed(4)),
+        ("mc-up", 0x05) => judge(set, cid, data, mc::McClassBSessionAnsPayload::new(data), UplinkRemoteSetup::McClassBSessionAns, fixed(4)),
+        // the plain field types of lorawan::types
+        ("types", 0) => {
+            let mut v = vec![];
+            let c2 = ChannelMask::<2>::new(data);
+            let c9 = ChannelMask::<9>::new(data);
+            if c2.is_ok() != (data.len() >= 2) || c9.is_ok() != (data.len() >= 9) {
+                v.push(("C03|types|ctor-length|ChannelMask".to_string(), format!("ChannelMask::new on {} bytes: <2> {:?}, <9> {:?}", data.len(), c2.is_ok(), c9.is_ok())));
+            }
+            if let Ok(m) = c2 {
+                assert!(m.as_ref() == &data[..2]);
+                black_box(sweep_mask(&m) ^ m.statuses::<16>().len() as u64);
+            }
+            if let Ok(m) = c9 {
+                assert!(m.as_ref() == &data[..9]);
+                black_box(sweep_mask(&m) ^ m.statuses::<72>().len() as u64);
+            }
+            let f = Frequency::new(data);
+            if f.is_some() != (data.len() == 3) {
+                v.push(("C03|types|ctor-length|Frequency".to_string(), format!("Frequency::new on {} bytes: {:?}", data.len(), f.is_some())));
+            }
+            if let Some(f) = f {
+                assert!(f.value() == 100 * (data[0] as u32 | (data[1] as u32) << 8 | (data[2] as u32) << 16));
+            }
+            if let Some(&b) = data.first() {
+                let d = DLSettings::new(b);
+                assert!(d.raw_value() == b && d.rx1_dr_offset() == (b >> 4) & 7 && d.rx2_data_rate() as u8 == b & 15);
+                let r = Redundancy::new(b);
+                assert!(r.raw_value() == b && r.channel_mask_control() == (b >> 4) & 7 && r.number_of_transmissions() == b & 15);
+                let q = DataRateRange::new(b);
+                assert!(q.is_ok() == (b >> 4 >= b & 15), "DataRateRange::new({b:#x}) = {q:?}");
+                let q = DataRateRange::new_from_raw(b);
+                black_box(q.max_data_rate() as u64 ^ q.min_data_rate() as u64 ^ q.raw_value() as u64);
+            }
+            v
+        }
+        _ => vec![],
+    });
+    match r {
+        Ok(v) => v,
+        Err(p) => vec![(format!("C03|{set}|ctor-panic|cid{cid:02x}|{}", panic_site(&p)), format!("constructor / accessors panic on {}: {p}", hex(data)))],
+    }
+}
+
 pub fn eval(c: &Case) -> Vec<(String, String)> {
     let b = unhex(&c.bytes);
-    if c.target == "frame" { eval_frame(&b) } else { eval_set(&c.target, &b) }
+    if c.target == "frame" {
+        eval_frame(&b)
+    } else if let Some(rest) = c.target.strip_prefix("ctor:") {
+        let (set, cid) = rest.split_once(':').expect("ctor:<set>:<cid>");
+        eval_ctor(set, u8::from_str_radix(cid, 16).expect("cid"), &b)
+    } else {
+        eval_set(&c.target, &b)
+    }
 }
 
 fn filler(kind: u8, n: usize) -> Vec<u8> {
@@ -607,6 +747,71 @@ pub fn run(tier: Tier, replay: Option<&str>) {
         ctx.tick(n);
         states.fetch_add(n, Ordering::Relaxed);
     });
+    // (e) checked constructors called directly: every defined command x every slice length 0..=max+3 (variable-length ones up
+    // to 260, the multicast status report with every status octet) x 3 fillers; the field types of lorawan::types
+    let mut ctor_jobs: Vec<(&str, u8)> = SETS.iter().flat_map(|s| table(s).into_iter().filter(|(_, l)| *l != Some(0)).map(move |(c, _)| (*s, c))).collect();
+    ctor_jobs.push(("types", 0));
+    ctor_jobs.par_iter().for_each(|&(set, cid)| {
+        let l = if set == "types" { Some(12) } else { table(set).iter().find(|x| x.0 == cid).unwrap().1 };
+        let mut n = 0u64;
+        let mut one = |data: &[u8]| {
+            for (sig, what) in eval_ctor(set, cid, data) {
+                let c = Case { target: format!("ctor:{set}:{cid:02x}"), bytes: hex(data) };
+                ctx.violation(sig, what, serde_json::to_value(&c).unwrap(), data.len());
+            }
+            n += 1;
+        };
+        match (set, l) {
+            ("mc-up", None) => {
+                for status in 0..=255u8 {
+                    for len in 0..=28usize {
+                        for fk in 0..3u8 {
+                            let mut d = filler(fk, len);
+                            if len > 0 {
+                                d[0] = status;
+                            }
+                            one(&d);
+                        }
+                    }
+                }
+            }
+            ("types", _) => {
+                for len in 0..=12usize {
+                    for b0 in 0..=255u8 {
+                        for fk in 0..3u8 {
+                            let mut d = filler(fk, len);
+                            if len > 0 {
+                                d[0] = b0;
+                            }
+                            one(&d);
+                        }
+                    }
+                }
+            }
+            (_, None) => {
+                for len in 0..=260usize {
+                    for fk in 0..3u8 {
+                        one(&filler(fk, len));
+                    }
+                }
+            }
+            (_, Some(l)) => {
+                for len in 0..=l + 3 {
+                    for b0 in 0..=255u8 {
+                        for fk in 0..3u8 {
+                            let mut d = filler(fk, len);
+                            if len > 0 {
+                                d[0] = b0;
+                            }
+                            one(&d);
+                        }
+                    }
+                }
+            }
+        }
+        ctx.tick(n);
+        states.fetch_add(n, Ordering::Relaxed);
+    });
     let _ = ok_items;
 
     let samples = json!([
@@ -622,7 +827,7 @@ pub fn run(tier: Tier, replay: Option<&str>) {
         "samples": samples,
         "evaluations": ctx.evals(),
         "distinct_nontrivial": states.load(Ordering::Relaxed),
-        "rule": "states = byte strings executed on the real parsers: (a) the complete append-a-byte tree to depth 3 for the frame parsers and depth 2 (quick) / 3 (thorough) for each of the six MAC command sets; (b) MHDR(256) x FCtrl(256) x total length 0..=40 x 3 fillers; (b2) data MHDRs(5) x FCtrl(256) x total length 6..=300 and 511..513, 520, 767, 768, 1023, 1024, 1040 x 3 fillers, as is and with a MIC that verifies; (c) every CID 0..=255 x every truncation point 0..=max_len+2 x 3 fillers, alone, preceded by and followed by every defined command of the set; (d) variable-length commands with every status byte / every length. transitions = append-a-byte edges of the tree part",
+        "rule": "states = byte strings executed on the real parsers: (a) the complete append-a-byte tree to depth 3 for the frame parsers and depth 2 (quick) / 3 (thorough) for each of the six MAC command sets; (b) MHDR(256) x FCtrl(256) x total length 0..=40 x 3 fillers; (b2) data MHDRs(5) x FCtrl(256) x total length 6..=300 and 511..513, 520, 767, 768, 1023, 1024, 1040 x 3 fillers, as is and with a MIC that verifies; (c) every CID 0..=255 x every truncation point 0..=max_len+2 x 3 fillers, alone, preceded by and followed by every defined command of the set; (d) variable-length commands with every status byte / every length; (e) the checked constructor of every payload type on every slice length 0..=max+3 (first byte 0..=255, 3 fillers; McGroupStatusAns: every status octet x 0..=28 bytes) and the field types of lorawan::types, ChannelMask::is_enabled with every index up to 24 past the mask and at the top of usize. transitions = append-a-byte edges of the tree part",
         "tree_depth_frames": depth_frame,
         "tree_depth_command_sets": depth_sets,
         "exhaustive": true,
